@@ -141,7 +141,36 @@ def build_function(name, beh, log, is_async=False, pause=True):
 
 def register(dispatcher, table, log, is_async=False, pause=True):
     for name, beh in table.items():
+        if beh['kind'] == 'viewstate':
+            register_stateful_view(dispatcher, name, log, is_async)
+            continue
         dispatcher.add(build_function(name, beh, log, is_async=is_async, pause=pause), name=name)
+
+
+def register_stateful_view(dispatcher, name, log, is_async):
+    """a class based view registered WITHOUT a context that prepares per-request state in its constructor: method `name`(x) appends x
+    to that state and returns it - [x] for every request, since every request is served by a view object of its own"""
+    import pjrpc.server
+
+    class Basket(pjrpc.server.ViewMixin):
+        def __init__(self):
+            super().__init__()
+            self.items = []
+
+    if is_async:
+        async def push(self, x):
+            self.items.append(x)
+            log.append((name, dict(x=x)))
+            await _pause()
+            return list(self.items)
+    else:
+        def push(self, x):
+            self.items.append(x)
+            log.append((name, dict(x=x)))
+            return list(self.items)
+    push.__name__ = name
+    setattr(Basket, name, push)
+    dispatcher.registry.view(Basket)
 
 
 # the standard behaviour table of C01-C03 / C11 / C13
